@@ -102,10 +102,24 @@ func providerFor(kind string, n int) store.Provider {
 
 // Span budgets (DESIGN §8.5): dense-family stores allocate an array over the
 // whole index span and the paginated store a page table over the paged span.
-const (
+// The budgets are per run (plan config "dense_span" / "paged_span"); worlds whose
+// oracles run after every event use smaller ones, because every rank lookup
+// walks the whole array or page table.
+var (
 	denseSpanBudget = 1 << 16
 	pagedSpanBudget = 1 << 22
 )
+
+func setSpanBudgets(p *engine.Plan, dense, paged int) {
+	denseSpanBudget = p.CfgInt("dense_span", dense)
+	pagedSpanBudget = p.CfgInt("paged_span", paged)
+	if denseSpanBudget > 1<<16 {
+		denseSpanBudget = 1 << 16
+	}
+	if pagedSpanBudget > 1<<22 {
+		pagedSpanBudget = 1 << 22
+	}
+}
 
 func spanBudget(kind string) int {
 	switch kind {
